@@ -17,6 +17,22 @@ type avcNal struct {
 	T   int `json:"t"`
 	N   int `json:"n"`
 	ID  int `json:"id"`
+	// Sc > 0: the payload bytes At..At+Sc-1 are the byte string 00 00 01 (Sc = 3) or 00 00 00 01 (Sc = 4)
+	// instead of the pattern (Avc.tla Payload / PayByte)
+	Sc int `json:"sc"`
+	At int `json:"at"`
+}
+
+// payload is the NAL unit's payload as the specification defines it.
+func (n avcNal) payload(seed int) []byte {
+	b := ld.FillBytes(n.N, n.ID, seed)
+	if n.Sc > 0 {
+		for j := 0; j < n.Sc; j++ {
+			b[n.At+j] = 0
+		}
+		b[n.At+n.Sc-1] = 1
+	}
+	return b
 }
 
 type avcCase struct {
@@ -35,7 +51,7 @@ func (n avcNal) build(seed int) *avc.NALU {
 	v.NALRefIDC = avc.NALRefIDC(n.Nri)
 	v.NALUType = avc.NALUType(n.T)
 	if n.N > 0 {
-		v.Data = ld.FillBytes(n.N, n.ID, seed)
+		v.Data = n.payload(seed)
 	}
 	return v
 }
@@ -47,8 +63,8 @@ func (n avcNal) same(v *avc.NALU, seed int) error {
 	if int(v.NALRefIDC) != n.Nri || int(v.NALUType) != n.T {
 		return fmt.Errorf("NAL header nri=%d type=%d, want nri=%d type=%d", v.NALRefIDC, v.NALUType, n.Nri, n.T)
 	}
-	if !bytes.Equal(v.Data, ld.FillBytes(n.N, n.ID, seed)) {
-		return fmt.Errorf("NAL payload differs (len %d, want %d)", len(v.Data), n.N)
+	if want := n.payload(seed); !bytes.Equal(v.Data, want) {
+		return fmt.Errorf("NAL payload differs (len %d, want %d): %s", len(v.Data), n.N, rp.FirstDiff(v.Data, want))
 	}
 	return nil
 }
@@ -84,26 +100,18 @@ func init() {
 
 		switch cs.Kind {
 		case "record":
-			var r struct {
-				Profile, Compat, Level, Lsm1 int
-				Sps, Pps                     []avcNal
-			}
+			var r avcRecord
 			if err := json.Unmarshal(cs.Val, &r); err != nil {
 				panic(err)
 			}
-			// (1) records written by the specification (the independent conformant writer) are read back
+			// (1) records written by the specification (the independent conformant writer) are read back to
+			// the same values: every exported field is the value the specification wrote
 			rd := avc.NewAVCDecoderConfigurationRecord()
 			if err := rd.UnmarshalBinary(want); err != nil {
 				return rp.Fail(i, "unmarshal of the specification's record failed: %v", err)
 			}
-			if int(rd.AVCProfileIndication) != r.Profile || int(rd.AVCLevelIndication) != r.Level || int(rd.LengthSizeMinusOne) != r.Lsm1 {
-				return rp.Fail(i, "record fields profile=%d level=%d lsm1=%d, want %d %d %d", rd.AVCProfileIndication, rd.AVCLevelIndication, rd.LengthSizeMinusOne, r.Profile, r.Level, r.Lsm1)
-			}
-			if err := sameNals(r.Sps, rd.SequenceParameterSetNALUnits, c.Seed); err != nil {
-				return rp.Fail(i, "SPS: %v", err)
-			}
-			if err := sameNals(r.Pps, rd.PictureParameterSetNALUnits, c.Seed); err != nil {
-				return rp.Fail(i, "PPS: %v", err)
+			if what, dev := r.same(rd, c.Seed); what != "" {
+				return rp.Result{OK: false, What: "record read back from the ISO layout: " + what, Deviation: dev}
 			}
 			// (2) marshalling the unmarshalled canonical encoding reproduces it (also covers the
 			// compatibility byte, which has no exported accessor)
@@ -114,8 +122,19 @@ func init() {
 			if !bytes.Equal(again, want) {
 				return rp.Result{OK: false, What: "marshal(unmarshal(canonical record)) differs from the ISO layout: " + rp.FirstDiff(again, want), Deviation: classifyRecord(again, want)}
 			}
-			// (3) a record built through the API marshals to the ISO layout (profile compatibility
-			// is unexported: only checked when 0)
+			if len(again) <= 4096 { // the large ones are held once, as "marshalled configuration record"
+				c.Hold(i, "re-marshalled configuration record", again)
+			}
+			// the value the library marshalled unmarshals to an equal value (second generation)
+			rd2 := avc.NewAVCDecoderConfigurationRecord()
+			if err := rd2.UnmarshalBinary(again); err != nil {
+				return rp.Fail(i, "unmarshal of the library's own record failed: %v", err)
+			}
+			if what, dev := r.same(rd2, c.Seed); what != "" {
+				return rp.Result{OK: false, What: "record read back from its marshalled bytes: " + what, Deviation: dev}
+			}
+			// (3) a record built through the API marshals to the ISO layout and unmarshals to equal values
+			// (profile compatibility is unexported: only when 0)
 			if r.Compat == 0 {
 				w := avc.NewAVCDecoderConfigurationRecord()
 				w.AVCProfileIndication = avc.AVCProfile(r.Profile)
@@ -135,6 +154,16 @@ func init() {
 					return rp.Result{OK: false, What: "marshalled record differs from the ISO layout: " + rp.FirstDiff(got, want), Deviation: classifyRecord(got, want)}
 				}
 				c.Hold(i, "marshalled configuration record", got)
+				rd3 := avc.NewAVCDecoderConfigurationRecord()
+				if err := rd3.UnmarshalBinary(got); err != nil {
+					return rp.Fail(i, "unmarshal of the marshalled record failed: %v", err)
+				}
+				if what, dev := r.same(rd3, c.Seed); what != "" {
+					return rp.Result{OK: false, What: "unmarshal(marshal(record)): " + what, Deviation: dev}
+				}
+				if what, _ := r.same(w, c.Seed); what != "" {
+					return rp.Fail(i, "MarshalBinary changed the record it marshals: %s", what)
+				}
 			}
 			return rp.Result{OK: true}
 
@@ -155,19 +184,30 @@ func init() {
 				return rp.Fail(i, "marshal failed: %v", err)
 			}
 			if !bytes.Equal(got, want) {
-				return rp.Fail(i, "marshalled sample differs from the layout: %s", rp.FirstDiff(got, want))
+				return rp.Fail(i, "marshalled sample (length size %d) differs from the layout: %s", s.Lsm1+1, rp.FirstDiff(got, want))
 			}
 			c.Hold(i, "marshalled sample", got)
-			rd := avc.NewAVCSample(uint8(s.Lsm1))
-			if err := rd.UnmarshalBinary(want); err != nil {
-				return rp.Fail(i, "unmarshal failed: %v", err)
-			}
-			if err := sameNals(s.Nals, rd.NALUs, c.Seed); err != nil {
-				return rp.Fail(i, "sample: %v", err)
-			}
-			again, err := rd.MarshalBinary()
-			if err != nil || !bytes.Equal(again, want) {
-				return rp.Fail(i, "re-marshalled sample differs: %v %s", err, rp.FirstDiff(again, want))
+			// the specification's bytes and the library's own are read back to the NAL units that were written
+			for _, src := range []struct {
+				name string
+				b    []byte
+			}{{"the specification's sample", want}, {"the marshalled sample", got}} {
+				rd := avc.NewAVCSample(uint8(s.Lsm1))
+				if err := rd.UnmarshalBinary(src.b); err != nil {
+					return rp.Result{OK: false, What: fmt.Sprintf("unmarshal of %s (length size %d, %d NAL units, first bytes % x) failed: %v", src.name, s.Lsm1+1, len(s.Nals), head(src.b, 12), err),
+						Deviation: classifySample(src.b, nil, true)}
+				}
+				if err := sameNals(s.Nals, rd.NALUs, c.Seed); err != nil {
+					return rp.Result{OK: false, What: fmt.Sprintf("%s (length size %d, first bytes % x) read back: %v", src.name, s.Lsm1+1, head(src.b, 12), err),
+						Deviation: classifySample(src.b, rd.NALUs, false)}
+				}
+				again, err := rd.MarshalBinary()
+				if err != nil || !bytes.Equal(again, want) {
+					return rp.Fail(i, "re-marshalled sample differs: %v %s", err, rp.FirstDiff(again, want))
+				}
+				if len(again) <= 4096 {
+					c.Hold(i, "re-marshalled sample", again)
+				}
 			}
 			return rp.Result{OK: true}
 
@@ -234,6 +274,69 @@ func init() {
 		}
 		panic("unknown kind " + cs.Kind)
 	}
+}
+
+type avcRecord struct {
+	Profile, Compat, Level, Lsm1 int
+	Sps, Pps                     []avcNal
+}
+
+// same compares every exported field of a record the library produced with the specification's value; the
+// profile, level and length size are the values of the three bytes / two bits of ISO/IEC 14496-15 5.2.4.1.
+func (r avcRecord) same(rd *avc.AVCDecoderConfigurationRecord, seed int) (what, deviation string) {
+	if int(rd.AVCProfileIndication) != r.Profile || int(rd.AVCLevelIndication) != r.Level || int(rd.LengthSizeMinusOne) != r.Lsm1 {
+		what = fmt.Sprintf("fields profile=%d level=%d lengthSizeMinusOne=%d, want %d %d %d (bytes written: profile %#02x compatibility %#02x level %#02x)",
+			rd.AVCProfileIndication, rd.AVCLevelIndication, rd.LengthSizeMinusOne, r.Profile, r.Level, r.Lsm1, r.Profile, r.Compat, r.Level)
+		if int(rd.LengthSizeMinusOne) == r.Lsm1 && r.Compat != 0 {
+			// the values differ from the bytes only where the compatibility byte has flags: Avc.tla Dev = "refine"
+			deviation = "C12/record-fields-refined-by-compatibility"
+		}
+		return
+	}
+	if err := sameNals(r.Sps, rd.SequenceParameterSetNALUnits, seed); err != nil {
+		return "SPS: " + err.Error(), ""
+	}
+	if err := sameNals(r.Pps, rd.PictureParameterSetNALUnits, seed); err != nil {
+		return "PPS: " + err.Error(), ""
+	}
+	return "", ""
+}
+
+func head(b []byte, n int) []byte {
+	if len(b) > n {
+		return b[:n]
+	}
+	return b
+}
+
+// classifySample names the known deviation "a sample beginning with 00 00 00 01 is taken for an Annex-B byte
+// stream" (Avc.tla Dev = "annexb"): the reader returned the pieces between the start codes, or refused one.
+func classifySample(data []byte, got []*avc.NALU, failed bool) string {
+	sc := []byte{0, 0, 0, 1}
+	if !bytes.HasPrefix(data, sc) {
+		return ""
+	}
+	pieces := bytes.Split(data[4:], sc)
+	if failed {
+		for _, p := range pieces {
+			if len(p) == 0 {
+				return "C12/sample-annexb-sniffing"
+			}
+		}
+		return ""
+	}
+	if len(got) != len(pieces) {
+		return ""
+	}
+	for k, p := range pieces {
+		if got[k] == nil || got[k].NALUHeader == nil {
+			return ""
+		}
+		if b, err := got[k].MarshalBinary(); err != nil || !bytes.Equal(b, p) {
+			return ""
+		}
+	}
+	return "C12/sample-annexb-sniffing"
 }
 
 // classifyRecord names the known deviation "reserved bits not written" when that is the only difference.
